@@ -1,7 +1,7 @@
 """C21 Instant-based procedures apply at their instant or end the link (structure)."""
 from .lib.match import *
 
-SELECT = r'^bluetoe::link_layer::link_layer::(defer_ll_control_pdu|handle_ll_control_data|handle_pending_ll_control|handle_received_data|end_event|timeout|start_advertising_impl)$|^bluetoe::link_layer::details::phy_update_request_impl::|^bluetoe::link_layer::details::connection_state_base::plan_next_connection_event$'
+SELECT = r'^bluetoe::link_layer::link_layer::(try_event_cancelation|defer_ll_control_pdu|handle_ll_control_data|handle_pending_ll_control|handle_received_data|end_event|timeout|start_advertising_impl)$|^bluetoe::link_layer::details::phy_update_request_impl::|^bluetoe::link_layer::details::connection_state_base::plan_next_connection_event$'
 UNITS = lambda u: u in ('w_inst_ll',) or u.startswith('t_link_layer_ll_control') or u.startswith('t_link_layer_ll_phy')
 LL = 'bluetoe::link_layer::link_layer::'
 PH = 'bluetoe::link_layer::details::phy_update_request_impl::'
@@ -27,6 +27,25 @@ def run(chk, facts, tier):
              'the failing edge disconnects with connection_instant_passed', floor=3)
     chk.rule('deferred-pdu-not-released', 'the receive buffer slot of a deferred PDU is not freed while the pointer is kept (or the parameters are copied)', floor=1)
     chk.rule('apply-at-instant', 'handle_pending_ll_control applies and clears the deferred PDU exactly under !empty && defered_conn_event_counter_ == instance', floor=1)
+    chk.rule('no-pullback-while-update-applied', 'try_event_cancelation (pulls a planned, skipped-to connection event back when data becomes pending) reschedules only in state connected / connecting: '
+             'in connection_changed the planned event is the instant event and already carries the new parameters, moving it applies the update before its instant', floor=1)
+    states = facts.enum('bluetoe::link_layer::link_layer::state')
+    chk.require(bool(states), 'enum link_layer::state not found')
+    for fn in variants(facts, LL + 'try_event_cancelation', chk):
+        if not states:
+            break
+        cs = fn.body.calls('reschedule_on_pending_data') + fn.body.calls('setup_next_connection_event')
+        chk.require(len(cs) >= 2, 'try_event_cancelation: reschedule_on_pending_data / setup_next_connection_event not found')
+        bad = None
+        allowed = set()
+        for c in cs:
+            f = set(feasible_values(must_hold(c), 'state_', states))
+            allowed |= f
+            if not f <= {'connected', 'connecting'}:
+                bad = (c, sorted(f - {'connected', 'connecting'}))
+        chk.instance('no-pullback-while-update-applied', fn, 'planned event moved only in states %s' % sorted(allowed), bad is None,
+                     '' if bad is None else '%s() is reachable in state %s: the planned event of a pending instant / changed connection is pulled back, the new parameters take effect before the instant' % (bad[0].cn, '/'.join(bad[1])),
+                     node=bad[0] if bad else None, key='try_event_cancelation')
     chk.rule('pending-instant-fresh', 'end_event hands plan_next_connection_event a pending instant that is computed after handle_received_data() (which may defer a procedure in this very event)', floor=1)
     chk.rule('resume-after-instant', 'handle_received_data stops only while a PDU is deferred and start_advertising_impl / apply clear the deferral', floor=2)
     seen = set()
